@@ -94,6 +94,7 @@ def run(facts, rep, tier):
     kwtable(F, rep)
     spell(F, rep)
     registry(F, rep)
+    methodrecv(F, rep)
 
 
 VIEW_CALLS = ("Deref::deref", "::as_str", "::as_ref", "::borrow", "Clone::clone", "ToString::to_string",
@@ -419,3 +420,62 @@ def registry(F, rep):
                             "%s whose name is not Capitalised is lowered as a plain function call (keyword "
                             "arguments and defaults are lost)" % (v, v.lower()), file=lp.file, line=lp.line,
                             fn=lp.path))
+
+
+def methodrecv(F, rep):
+    """METHODRECV - a method name chosen by the user (`append`, `upper`, `get` ...) means the builtin list / dict /
+    string operation only on a builtin receiver. Wherever the back end turns a method NAME into a MethodKind, the
+    decision to treat the call as that builtin is taken after a test of the receiver's type: some read of an IrType
+    discriminant dominates the test of `MethodKind::from_name`'s result."""
+    n = 0
+    for p in sorted(F.fns):
+        if not p.startswith("incan::backend::ir::lower") and not p.startswith("incan::backend::ir::emit"):
+            continue
+        f = F.fns[p]
+        sites = [bi for bi, t in f.calls() if (callee_name(t) or "").endswith("MethodKind::from_name")]
+        if not sites:
+            continue
+        dom = f.dominators()
+        tyreads = [bi for bi, b in enumerate(f.blocks) for st in b["st"]
+                   if st["s"] == "assign" and st["rv"]["r"] == "discr" and st["rv"].get("adt", "").endswith("types::IrType")]
+        for site in sites:
+            n += 1
+            rep.functions.add(p)
+            # the test of the Option<MethodKind> derived from this call
+            tests = [bi for bi, b in enumerate(f.blocks) for st in b["st"]
+                     if st["s"] == "assign" and st["rv"]["r"] == "discr" and st["rv"].get("adt", "").endswith("option::Option")
+                     and "MethodKind" in f.local_ty(st["rv"]["p"]["l"]) and site in dom.get(bi, set())]
+            fn = fn_short(p)
+            inst = "%s#%d" % (fn, sites.index(site) + 1)
+            if not tests:
+                rep.oblige("METHODRECV", inst, False)
+                rep.add(Finding("METHODRECV", "METHODRECV|%s|no-test" % fn,
+                                "the result of MethodKind::from_name is not tested in %s; the rule cannot see where "
+                                "the builtin meaning is chosen" % fn, file=f.file, line=f.term(site).get("ln"), fn=p))
+                continue
+            s0 = min(tests)
+            # reads of the receiver's type that every path to the test passes, inside the same arm as the call
+            arm = [d for d in tyreads if d in dom.get(s0, set()) and
+                   (d in f.reachable(site) or any(x in dom.get(site, set()) for x in [d]))]
+            # a type read that already dominates the arm's dispatch is about another expression
+            disp = primary_dispatch_block(F, f)
+            arm = [d for d in arm if disp is None or (disp in dom.get(d, set()) and d != disp)]
+            ok = bool(arm)
+            rep.oblige("METHODRECV", inst, ok, sample={"rule": "METHODRECV", "fn": fn, "type_tests_before": len(arm)})
+            if not ok:
+                rep.add(Finding("METHODRECV", "METHODRECV|%s" % fn,
+                                "%s turns a method name into a builtin MethodKind without looking at the receiver's "
+                                "type: a user class with a method named `append` / `upper` / `get` ... has its calls "
+                                "emitted as `.push(..)` / `.to_uppercase()` / dict access" % fn,
+                                file=f.file, line=f.term(site).get("ln"), fn=p))
+    rep.floor("METHODRECV", "call sites of MethodKind::from_name in lowering and emission", n, 2)
+
+
+def primary_dispatch_block(F, f):
+    """block of the largest enum switch in f (the expression-kind dispatch of lower_expr), if any"""
+    from engines import discr_switches
+    best = None
+    for sw in discr_switches(f):
+        if len(sw["explicit"]) >= 12 and (best is None or len(sw["explicit"]) > len(best["explicit"])):
+            best = sw
+    return best["block"] if best else None
